@@ -429,8 +429,10 @@ class IndexLevel:
         if not hasattr(key, '__iter__') or isinstance(key, str):
             return False
 
+        key = tuple(key)
+        key_depth_max = len(key) - 1
         node = self
-        for k in key:
+        for depth, k in enumerate(key):
             if not node.index.__contains__(k):
                 return False
 
@@ -439,7 +441,8 @@ class IndexLevel:
                 continue
 
             node.index._loc_to_iloc(k)
-            return True # if above does not raise
+            # if above does not raise; a key with components beyond the leaf is no label of this hierarchy
+            return depth == key_depth_max
 
         return False
 
